@@ -5,7 +5,7 @@ import os
 from . import core
 
 HOOK_COMMITS = ["e03d988"]
-FIX_COMMITS = ["7c26a95", "7fa90f0", "f0c087a", "e99193e", "e23743b", "e274f6c", "d53ab7c", "6666d36", "240c26e", "d5ea340", "971abb4", "db7e5b1", "07318ba", "10a5b62"]
+FIX_COMMITS = ["7c26a95", "7fa90f0", "f0c087a", "e99193e", "e23743b", "e274f6c", "d53ab7c", "6666d36", "240c26e", "d5ea340", "971abb4", "db7e5b1", "07318ba", "10a5b62", "a649d0f", "271d897", "ebd2600", "037e84b"]
 
 BASELINE_OFF = ("cd /repo && GOFLAGS=-mod=mod go test -json -vet=off -count=1 -timeout 25m ./...")
 
@@ -96,6 +96,16 @@ CHECKS = {
             "Every model (a template exercising collectors, mixins, views, events and REST endpoints with each enumerated string at every attribute position; TLC-generated programs whose attribute values are drawn from the enumeration; every .sysl file of the repository) is encoded as pb, JSON and textpb, indented and compact, by the library and (for a sample) by the command line. The bytes are checked for JSON well-formedness, decoded with pbutil.FromPB and compared by digest of the deterministic binary encoding (compact JSON: without locations), and re-imported through a one-line specification whose applications must equal the original's. An OpenAPI document written as JSON must reach the foreign importer under the name api.json exactly as under api.yaml.",
             "Strings are bounded (length 3 over 9 characters plus key-like shapes); model equality is digest equality; split-apps output is not covered.",
             "DESIGN.md §6 C09"),
+    "C11": ("model_checking",
+            "InteropFacts.tla / Interop.tla (abstract document, the facts any carrier must contain, stage machine render-import-compile-observe-again) model-checked by TLC; documents enumerated and sampled by TLC (InteropGen.tla) rendered as OpenAPI 2/3, XSD and SQL DDL, imported by the real importers, the emitted Sysl compiled by the real parser; every stage outcome and observed fact set validated by TLC against the expected facts (InteropTrace.tla)",
+            "TLC computes from each abstract document the set of facts (type, field with kind / array / required / key, operation, parameter, response) that the compiled import must contain, restricted to what the format can express; the driver only reports stage outcomes and the facts it finds in the compiled model. Documents: every (name, kind, array, required) shape of one field incl. references, self-references, enumerations and inline objects; one operation over method x path x parameter and method x body x response; every pair of operations on one path item with path parameters on the item or on the operations; random multi-type documents incl. names needing escaping. Each document is rendered as Swagger 2 and OpenAPI 3 (yaml/json), XSD and SQL (Spanner / Postgres / MySQL flavour, inline or table-level key clauses), imported twice (identical text), compiled, and for a sample imported through an `import x.yaml as App` statement.",
+            "The abstract vocabulary is the common subset (no allOf/oneOf, no XSD attributes or groups, no composite foreign keys); whether a body is required is not compared; the arr.ai importers get a rotating quarter of the exhaustive shapes in the quick tier.",
+            "DESIGN.md §6 C11"),
+    "C12": ("model_checking",
+            "Interop.tla stage machine (compile-export-validate-read-importback) model-checked by TLC; TLC-generated documents written as REST-style Sysl applications, exported by the real Swagger and OpenAPI 3 exporters (yaml/json), validated with the OpenAPI library, read generically and imported back; every stage outcome and fact set validated by TLC against the expected facts (InteropTrace.tla)",
+            "The same abstract documents (restricted to the exportable subset by ExportDoc) are rendered as Sysl, compiled by the real parser and exported; the exported bytes must load and validate with kin-openapi (Swagger 2 after conversion), a generic reader must find every expected fact incl. enumeration members in the document, and importing the document back must give a model with every expected fact.",
+            "Exportable subset: no inline objects, scalar query/header parameters, at least one operation; whether a body is required is not compared; most Swagger 2 shortfalls are long-standing and listed as known findings.",
+            "DESIGN.md §6 C12"),
     "C20": ("exploration",
             "Command.tla life cycle model-checked by TLC; the sysl binary built from the working tree run as a subprocess per (model, command, option set) over hand-written untidy models and TLC-generated programs; every run validated by TLC (CommandTrace.tla)",
             "A search over the product space (model shape x command x options) with a trivial judge: each of ~20 command / option sets (pb text/json, validate, sd per endpoint, ints plain/epa/clustered, datamodel direct/project, export swagger yaml/json, proto, spanner, generate-db-scripts and -delta per application) is run on 17 hand-written untidy shapes (dangling call targets and endpoints, call cycles, dangling/cyclic/recursive type references, table references to non-tables, whole types, missing tables and cycles, empty applications, pass-through cycles, case-variant and REST-style calls) and on TLC-generated programs whose calls and references are left dangling. TLC replays start/outcome events through Command.tla: exit 0 with output, or non-zero with a message; 'panic:', 'fatal error:' and timeouts are unexplained. Crash sites are identified by the first repository frame.",
